@@ -2,7 +2,7 @@
    (fixed-length and chunked bodies). *)
 From Coq Require Import String.
 From Coq Require Import List Strings.Byte NArith ZArith Bool Arith.
-Require Import Bytes Show Tables Chunk ChunkProofs BodyStream BodyStreamProofs ChunkStreamProofs.
+Require Import Bytes Show Tables Chunk ChunkProofs BodyStream BodyStreamProofs ChunkStreamProofs Prefetch PrefetchProofs.
 Import ListNotations.
 
 (* For every declared length n, every prefetched part p (at most n bytes), every continuation w of
@@ -51,3 +51,20 @@ Example C14_nonvacuous :
   let '(b, eof, s') := run_reads [(3, 1); (100, 2); (100, 100)] (fresh 6 (B "ab") (B "cdefGET /next")) in
   b = B "abcdef" /\ eof = true /\ wire (skip_rest s') = B "GET /next".
 Proof. vm_compute. repeat split; reflexivity. Qed.
+
+(* The hypothesis `length p <= n` of C14_fixed_length_stream is what ext.ReadBodyWithStreaming must establish
+   (Model/Prefetch.v: the number of bytes it takes off the connection, compared with the code by unit
+   c14.prefetch for every declared length, limit, buffer capacity and arrival pattern).
+   Within the size limit it does: exactly min(Content-Length, 8 KiB) bytes are taken. *)
+Theorem C14_prefetch_within_the_limit : forall cl limit cap avail, (cl <= eff_limit limit)%nat ->
+  prefetch cl limit cap avail = Nat.min cl max_in_stream /\ (prefetch cl limit cap avail <= cl)%nat.
+Proof. exact prefetch_within_limit. Qed.
+Print Assumptions C14_prefetch_within_the_limit.
+
+(* Above the limit it does NOT: the faithful model takes more bytes than the body holds (Content-Length 100, limit
+   50, a fresh buffer, 4096 bytes buffered: 1024 bytes are taken).  This is the witness of known finding D27;
+   replayed on the code by c14.prefetch / c14.stream (classes prefixed over-limit-body). *)
+Theorem C14_prefetch_over_the_limit_refuted : exists cl limit cap avail,
+  (eff_limit limit < cl)%nat /\ (cl < prefetch cl limit cap avail)%nat.
+Proof. exact prefetch_over_limit_refuted. Qed.
+Print Assumptions C14_prefetch_over_the_limit_refuted.
